@@ -64,7 +64,7 @@ Section RoundtripSrc.
        12 + 4 * nblocks BLOCK (len blocks) <= LIMIT /\ 12 + 4 * nblocks BLOCK (len blocks) < 2 ^ 32 /\
        len blocks < 2 ^ 63) ->
     (wc_encrypt cfg = true ->
-       (forall i c, len (tagf k n i c) = TAG) /\ nfull CHUNK (len (mid_of cfg blocks)) + 2 < 2 ^ 32) ->
+       (forall i c, len (tagf k n i c) = TAG) /\ (nfull CHUNK (len (mid_of cfg blocks)) + 2 < 2 ^ 32 /\ CHUNK + TAG <= 2 ^ 31)) ->
     exists R, Refines (StackSrc S0 (wc_encrypt cfg) (wc_compress cfg) k n) blocks R /\
       exists s, open_stack_src S0 s1 (wc_encrypt cfg) (wc_compress cfg) k n = Ok s /\ R s 0.
   Proof.
@@ -80,10 +80,10 @@ Section RoundtripSrc.
       set (a := hdr ++ enc_format CHUNK ks tagc (comp_format BLOCK comp blocks)) in *.
       exists (Rcomp0 CHUNK TAG BLOCK ks tagc comp hdr blocks (nblocks BLOCK (len blocks)) S0 R0).
       split.
-      + exact (stack_refines CHUNK TAG BLOCK LIMIT HCHUNK HTAG HB HB32 ks tagc Htagc comp dec Hdec hdr blocks _
-                 Hnb (conj Hl1 Hl2) HL He Hlen S0 _ HC).
-      + destruct (stack_open CHUNK TAG BLOCK LIMIT HCHUNK HTAG HB HB32 ks tagc Htagc comp dec Hdec hdr blocks _
-                    Hnb Hcs (conj Hl1 Hl2) HL He Hlen S0 _ HC s1 Hs1)
+      + exact (stack_refines CHUNK TAG BLOCK LIMIT HCHUNK HTAG (proj2 He) HB HB32 ks tagc Htagc comp dec Hdec hdr blocks _
+                 Hnb (conj Hl1 Hl2) HL (proj1 He) Hlen S0 _ HC).
+      + destruct (stack_open CHUNK TAG BLOCK LIMIT HCHUNK HTAG (proj2 He) HB HB32 ks tagc Htagc comp dec Hdec hdr blocks _
+                    Hnb Hcs (conj Hl1 Hl2) HL (proj1 He) Hlen S0 _ HC s1 Hs1)
           as (r & c & Hro & Hco & HRc).
         exists c. split; [|exact HRc].
         unfold ArchiveSrc.open_stack_src. rewrite Hro. cbn [lift bind].
@@ -93,9 +93,10 @@ Section RoundtripSrc.
       set (a := hdr ++ enc_format CHUNK ks tagc blocks) in *.
       pose proof (raw_reader_refines S0 hdr _ _ HC Hlen) as HRaw.
       destruct (raw_open_spec S0 hdr _ _ HC Hlen s1 Hs1) as (r & Hro & HRr).
-      destruct (enc_open_spec CHUNK TAG HCHUNK HTAG ks tagc Htagc _ blocks _ HRaw He r 0 HRr) as (e1 & Heo & HRe).
+      destruct (ranges_of_sizes CHUNK TAG (len blocks) HCHUNK (proj2 He) (proj1 He)) as [Hu64 Hi64].
+      destruct (enc_open_spec CHUNK TAG HCHUNK HTAG ks tagc Htagc _ blocks _ HRaw (proj1 He) Hu64 Hi64 r 0 HRr) as (e1 & Heo & HRe).
       eexists. split.
-      + exact (enc_reader_refines CHUNK TAG HCHUNK HTAG ks tagc Htagc _ blocks _ HRaw He).
+      + exact (enc_reader_refines CHUNK TAG HCHUNK HTAG ks tagc Htagc _ blocks _ HRaw (proj1 He) Hu64 Hi64).
       + exists e1. split; [|exact HRe].
         unfold ArchiveSrc.open_stack_src. rewrite Hro. cbn [lift bind].
         exact (f_equal (@lift _ _) Heo).
@@ -135,7 +136,7 @@ Section RoundtripSrc.
     (wc_encrypt cfg = true ->
        len (wc_key cfg) = 32 /\ len (wc_nonce cfg) = 8 /\
        (forall i c, len (tagf (wc_key cfg) (wc_nonce cfg) i c) = TAG) /\
-       nfull CHUNK (len (mid_of cfg blocks)) + 2 < 2 ^ 32 /\
+       (nfull CHUNK (len (mid_of cfg blocks)) + 2 < 2 ^ 32 /\ CHUNK + TAG <= 2 ^ 31) /\
        dh s (pubk (wc_eph cfg)) = dh (wc_eph cfg) (pubk s) /\
        In (pubk s) (wc_recipients cfg) /\ In s privs) ->
     config_size (to_persistent cfg) <= LIMIT ->
@@ -177,7 +178,7 @@ Section RoundtripSrc.
                  HCHUNK HTAG HCB HB HB32 HHlen wdec_wenc Hpubk Hwenc Hwtag).
       + reflexivity.
       + intros Ec. destruct (Hc Ec) as (_ & _ & _ & H32 & _). exact H32.
-      + intros Ee. destruct (He Ee) as (_ & _ & _ & Hch & _). exact Hch.
+      + intros Ee. destruct (He Ee) as (_ & _ & _ & Hch & _). exact (proj1 Hch).
     - intros S0 R0 HR0 s0 p0 Hs0.
       assert (Hcfg : (TagCollision pubk dh kdf wenc wtag (wc_eph cfg) (wc_key cfg) (wc_recipients cfg) privs) \/
                      exists k n, load_config hp privs = Ok (wc_encrypt cfg, wc_compress cfg, k, n) /\
